@@ -4,8 +4,11 @@ import json, os, subprocess
 ROOT = os.path.dirname(os.path.dirname(os.path.abspath(__file__)))
 import glob
 CHECKS = json.load(open(os.path.join(ROOT, "tools", "checks.json")))
+ACCEPTED = set(json.load(open(os.path.join(ROOT, "tools", "accepted.json"))))  # checks reviewed by the coordinator and silent on the unchanged tree
 for f in sorted(glob.glob(os.path.join(ROOT, "tools", "checks.d", "C*.json"))):
-    CHECKS.append(json.load(open(f)))
+    c = json.load(open(f))
+    if c["property_id"] in ACCEPTED:
+        CHECKS.append(c)
 CHECKS.sort(key=lambda c: c["property_id"])
 NA = {}
 if os.path.exists(os.path.join(ROOT, "tools", "not_applicable.json")):
